@@ -567,8 +567,14 @@ Section Norm.
     forall x, ~ (ev a1 <= x < ev a1 + n1 /\ ev a2 <= x < ev a2 + n2).
   Proof.
     unfold disj. intros H H1 H2 x.
+    destruct (disj_const n1 a1 n2 a2) eqn:DC.
+    { unfold disj_const in DC.
+      destruct a1 as [c1| | | | | | | | | | | | | | | ]; try discriminate DC.
+      destruct a2 as [c2| | | | | | | | | | | | | | | ]; try discriminate DC.
+      cbn [evalw]. apply orb_true_iff in DC. destruct DC as [DC|DC]; apply Z.leb_le in DC; lia. }
     rewrite (split_addr_sound a1 H1), (split_addr_sound a2 H2).
     destruct (split_addr a1) as [b1 c1]. destruct (split_addr a2) as [b2 c2]. cbn [fst snd].
+    cbn [orb] in H.
     apply orb_true_iff in H. destruct H as [H|H].
     { apply orb_true_iff in H. destruct H as [H|H]; apply Z.eqb_eq in H; lia. }
     repeat (apply andb_true_iff in H; destruct H as [H ?]).
